@@ -45,6 +45,18 @@ class P(Prop):
                 tgts = [n for n in c.graph.nodes if c.type(n) in gen.MULTI and n not in c.transitive_fanin(src) and n != src]
                 if tgts:
                     c.graph.add_edge(src, rng.choice(tgts))
+        # names that collide with the helper names the transforms request (uid must rename the new node)
+        if rng.random() < 0.35:
+            wide = [n for n in c.graph.nodes if c.graph.in_degree(n) >= 3 or c.graph.out_degree(n) >= 3]
+            if wide:
+                n = rng.choice(wide)
+                for suffix in rng.sample(["_limit_fanin_0", "_limit_fanout_0", "_limit_fanin_1", "_limit_fanout_1"], 2):
+                    nm = n + suffix
+                    if nm not in c.graph.nodes:
+                        c.add(nm, "input")
+                        tgts = [g for g in c.graph.nodes if c.type(g) in gen.MULTI]
+                        if tgts:
+                            c.graph.add_edge(nm, rng.choice(tgts))
         return c
 
     def correspond(self, n):
@@ -184,6 +196,14 @@ class P(Prop):
             k = rng.choice([2, 2, 3, 4, 5])
             self.check_limit(c, k, "fanin")
             self.check_limit(c, k, "fanout")
+            if i % 3 == 0:
+                # limiting an already limited circuit (helper names of the first pass are taken)
+                o1, c5 = call(cg.tx.limit_fanin, c, 5)
+                o2, d5 = call(cg.tx.limit_fanout, c, 4)
+                if o1 == "ok":
+                    self.check_limit(c5, 2, "fanin")
+                if o2 == "ok":
+                    self.check_limit(d5, 2, "fanout")
             if i % 2 == 0:
                 self.check_insert_registers(c, rng.randint(1, 4))
             if i % 2 == 1:
